@@ -138,12 +138,26 @@ def gops2_lang():
     ], [assoc('Kid', 'Pp', 'par', '0..1', '*', 'kids', 'Pp')], lang_id='org.verif.gops2')
 
 
-def build_start(fx, which):
+def build_start(fx, which, names='plain'):
     """-> (model, graph) : two assets, one link, two model attackers (one names a missing step)"""
     from maltoolbox.attackgraph import AttackGraph
     from maltoolbox.model import Model, AttackerAttachment
     m = Model('gm', fx.factory)
-    if which == 'GOPS':
+    if which == 'GOPS' and names == 'auto':
+        # generated names contain ':' and share a prefix ('Nn:0', 'Nn:1')
+        a, b = fx.ns.Nn(dd=0.0), fx.ns.Nn()
+        m.add_asset(a)
+        m.add_asset(b)
+        m.add_association(fx.ns.Peer(peers=[b], peersOf=[a]))
+        e1, e2 = ('go', 'chk'), ('go', 'nosuchstep')
+    elif which == 'GOPS' and names == 'dup':
+        # a duplicate name is renamed to '<name>:<id>': 'n' and 'n:1'
+        a, b = fx.ns.Nn(name='n', dd=0.0), fx.ns.Nn(name='n')
+        m.add_asset(a)
+        m.add_asset(b)
+        m.add_association(fx.ns.Peer(peers=[b], peersOf=[a]))
+        e1, e2 = ('go', 'chk'), ('go', 'nosuchstep')
+    elif which == 'GOPS':
         a, b = fx.ns.Nn(name='a', dd=0.0), fx.ns.Nn(name='b')
         m.add_asset(a)
         m.add_asset(b)
@@ -191,7 +205,7 @@ class GraphSystem(System):
         if not self.fx.intact():
             self.fx = langs.fixture(self.sp, fresh=True)
         c = Ctx()
-        c.model, c.g = build_start(self.fx, self.which)
+        c.model, c.g = build_start(self.fx, self.which, self.cfg.get('names', 'plain'))
         c.has_lang = True
         c.added = 0
         c.removed_nodes = []       # objects removed from the graph (for invalid calls)
@@ -230,6 +244,10 @@ class GraphSystem(System):
                 ops.append((('add_node', (max(ids) if ids else 0) + 3), 1))
                 if ids:
                     ops.append((('add_node', ids[0]), 1))
+                # an id that was freed by a removal / lies below the counter
+                gone = sorted(i for i in c.ever_ids if isinstance(i, int) and i not in ids)
+                if gone:
+                    ops.append((('add_node', gone[0]), 1))
             for i in ids[:2] + ids[-1:]:
                 ops.append((('remove_node', i), 0))
             if c.removed_nodes:
@@ -239,6 +257,7 @@ class GraphSystem(System):
             ops.append((('deepcopy',), 0))
             ops.append((('saveload', 'json', True), 0))
             ops.append((('saveload', 'json', False), 0))
+            ops.append((('saveload', 'yml', True), 0))      # yaml sorts the steps by full name: ids out of order
         if at or st:
             if c.has_lang and not g.attackers:
                 ops.append((('attach',), 0))
@@ -256,6 +275,9 @@ class GraphSystem(System):
                     ops.append((('add_attacker', (max(aids) if aids else 0) + 2, tuple(ids[:1]), ()), 1))
                     if aids:
                         ops.append((('add_attacker', aids[0], (), ()), 1))
+                    if ids:
+                        # the same step listed twice: compromising twice must change nothing
+                        ops.append((('add_attacker', None, (), (ids[0], ids[0])), 1))
             for a in g.attackers[:3]:
                 ops.append((('remove_attacker', a.id), 0))
             cand = ids[:3] if at else ids[:1]
@@ -486,8 +508,8 @@ class GraphSystem(System):
             if a.id in before['attackers']:
                 raise Violation('add_attacker:id_not_unique', f'new attacker got id {a.id} which is in use')
             o = copy.deepcopy(before)
-            o['attackers'][a.id] = {'name': a.name, 'entry_points': sorted(eps), 'reached': sorted(reached)}
-            for i in reached:
+            o['attackers'][a.id] = {'name': a.name, 'entry_points': sorted(eps), 'reached': sorted(set(reached))}
+            for i in sorted(set(reached)):
                 o['nodes'][i]['compromised_by'] = sorted(o['nodes'][i]['compromised_by'] + [a.id])
             return o
         if present:
